@@ -49,6 +49,9 @@ namespace xsv
     }
     inline void install_known(const Options&) { known_fn() = elem_known; }
     // C17: which ops have a scalar overload claimed by the property
-    inline bool scalar_op_claimed(const OpDef& d) { return d.family == "int" || d.family == "fp"; }
+    inline bool scalar_op_claimed(const OpDef& d)
+    {
+        return d.prop == "C01" || d.prop == "C02" || d.prop == "C03" || d.prop == "C06" || d.prop == "C07" || d.prop == "C08" || d.prop == "C17";
+    }
 }
 #endif
